@@ -206,3 +206,188 @@ class ConnM:
         for s in self.streams.values():
             if s.state == CLOSED and s.forgotten == 0:
                 s.forgotten = 1
+
+
+# ====================================================================
+# Verdict tables (RFC 7540 sections 5.1, 5.1.1, 5.4, 6.x, 8.1) - see
+# DESIGN.md Appendix A.  An outcome is one of
+#   ("ok",)            accepted, events delivered
+#   ("ignore",)        accepted silently: no stream event, no frame
+#   ("SE", code)       stream error: RST_STREAM(code) on that stream
+#   ("CE", code)       connection error: exception + GOAWAY(code)
+#   ("refuse-promised",) PUSH_PROMISE answered with RST_STREAM(promised, REFUSED_STREAM)
+# The tables return the SET of allowed outcomes; entries that are library
+# leniencies carry their source in Appendix B of DESIGN.md.
+# ====================================================================
+
+PE, SC_, FCE_, REFUSED = 1, 5, 3, 7
+OK = ("ok",)
+IGNORE = ("ignore",)
+
+
+def recv_verdict(m, kind, sid, es=False, block=None, promised=None):
+    """kind: headers | data | rst | wu | push | continuation.  block (for
+    headers): request | response | info | trailers."""
+    st = m.status(sid)
+    s = m.get(sid)
+    peer_parity = (sid % 2 == 1) != m.client
+    if kind == "continuation":
+        if (s is not None and s.state == CLOSED and s.closed_by == "es") or (s is None and st == "unused_low"):
+            return {("CE", PE), ("CE", SC_)}
+        return {("CE", PE)}
+    if kind == "push":
+        if not m.client:
+            return {("CE", PE)}
+        if s is None:
+            return {("CE", PE)}
+        if s.pushed or not s.local_init:
+            return {("CE", PE)}
+        if s.state in (OPEN, HC_LOCAL):
+            return {OK}
+        if s.state == HC_REMOTE:
+            return {("SE", SC_), ("CE", PE)}
+        if s.state == CLOSED and s.closed_by == "send_rst":
+            return {("refuse-promised",)}
+        return {("CE", PE)}
+    if s is None and st == "unused_low" and kind in ("headers", "data"):
+        # implicitly closed by a higher id (5.1.1): how it "was closed" is undefined - any closed-stream reaction
+        return {("CE", PE), ("CE", SC_), ("SE", SC_)}
+    if s is None:
+        # never used
+        if kind == "headers":
+            if st == "unused_high" and peer_parity and not m.client and block == "request":
+                return {OK}
+            return {("CE", PE)}
+        if kind == "rst":
+            return {("CE", PE), IGNORE}        # (L) ignoring RST_STREAM on idle: code comment only
+        if kind == "wu":
+            return {("CE", PE), IGNORE} if st == "unused_low" else {("CE", PE)}
+        return {("CE", PE)}
+    state = s.state
+    if state == CLOSED:
+        if kind in ("rst", "wu"):
+            return {IGNORE}                     # (L) however late
+        if kind == "headers" and block == "info" and es:
+            # malformed in itself (1xx with END_STREAM): a connection error is in order whatever the stream state
+            base = {("CE", PE)}
+            if s.closed_by == "send_rst":
+                return base | {IGNORE, ("SE", SC_)}
+            if s.closed_by == "recv_rst":
+                return base | {("SE", SC_)}
+            return base | {("CE", SC_)}
+        if s.closed_by == "send_rst":
+            return {IGNORE, ("SE", SC_)}
+        if s.closed_by == "recv_rst":
+            return {("SE", SC_)}
+        return {("CE", SC_)}
+    if kind == "rst":
+        return {OK}
+    if kind == "wu":
+        if state == RES_REMOTE:
+            return {("CE", PE), OK}             # RFC 5.1 forbids it; harmless - tolerated
+        return {OK}
+    if state == RES_LOCAL:
+        return {("CE", PE)}
+    if state == RES_REMOTE:
+        if kind == "headers" and block in ("response",):
+            return {OK}
+        if kind == "headers" and block == "info":
+            return {OK, ("CE", PE)}             # unspecified: 1xx on a promised stream
+        return {("CE", PE)}
+    if state == HC_REMOTE:
+        if kind == "headers" and block == "info":
+            return {("SE", SC_), ("CE", PE)}    # the peer misbehaves twice over; either error is in order
+        return {("SE", SC_)}
+    # open / half-closed(local): message grammar
+    if kind == "data":
+        if s.recv == "none":
+            return {("CE", PE)}                 # DATA before HEADERS (changelog 4.0.0)
+        if s.recv == "trailers":
+            return {("CE", PE)}
+        return {OK}
+    if kind == "headers":
+        if m.client:
+            if s.recv == "none":
+                if block == "info":
+                    return {("CE", PE)} if es else {OK}
+                if block == "response":
+                    return {OK}
+                return {("CE", PE)}
+            if s.recv == "final":
+                if block == "trailers" and es:
+                    return {OK}
+                return {("CE", PE)}
+            return {("CE", PE)}
+        # server: the request is there; anything further is trailers
+        if s.recv == "final" and block == "trailers" and es:
+            return {OK}
+        return {("CE", PE)}
+    return {("CE", PE)}
+
+
+def classify_obs(o, sid, promised=None):
+    """Observation -> outcome tuple comparable with recv_verdict()."""
+    if o.kind == "raise":
+        return ("CE", int(o.code) if o.is_proto else -1)
+    for f in o.frames:
+        if f.type == 3 and f.sid == sid:
+            return ("SE", f.f["code"])
+    if promised is not None:
+        for f in o.frames:
+            if f.type == 3 and f.sid == promised and f.f["code"] == REFUSED:
+                return ("refuse-promised",)
+    stream_events = [e for e in o.events if type(e).__name__ not in ("PriorityUpdated",)]
+    if stream_events:
+        return OK
+    return IGNORE
+
+
+def send_verdict(m, kind, sid, es=False, block=None):
+    """Local action -> 'ok' | set of acceptable exception class names.
+    kind: headers | data | end | rst | wu."""
+    st = m.status(sid)
+    s = m.get(sid)
+    if s is None:
+        if kind == "headers" and m.client and st == "unused_high" and m.is_local_id(sid) and block == "request":
+            return "ok"
+        if kind == "headers":
+            return {"ProtocolError", "StreamIDTooLowError", "NoSuchStreamError", "StreamClosedError"}
+        return {"NoSuchStreamError"} if st == "unused_high" else {"StreamClosedError", "NoSuchStreamError"}
+    if s.state == CLOSED:
+        if kind == "headers" and s.forgotten:
+            return {"StreamClosedError", "StreamIDTooLowError"}
+        return {"StreamClosedError"}
+    can_send = s.state in (OPEN, HC_REMOTE)
+    if kind == "rst":
+        return "ok"
+    if kind == "wu":
+        return "ok"
+    if kind in ("data", "end"):
+        if can_send and s.sent == "final":
+            return "ok"
+        return {"ProtocolError"}
+    if kind == "headers":
+        if s.state == RES_LOCAL:
+            if block == "response":
+                return "ok"
+            if block == "info":
+                return {"ProtocolError"} if es else "ok"
+            return {"ProtocolError"}
+        if not can_send:
+            return {"ProtocolError"}
+        if m.client:
+            # client on its own stream: only trailers can follow the request
+            if s.sent == "final" and block == "trailers" and es:
+                return "ok"
+            return {"ProtocolError"}
+        # server on a request stream (or its own pushed stream after the response)
+        if s.sent == "none":
+            if block == "response":
+                return "ok"
+            if block == "info":
+                return {"ProtocolError"} if es else "ok"
+            return {"ProtocolError"}
+        if s.sent == "final" and block == "trailers" and es:
+            return "ok"
+        return {"ProtocolError"}
+    return {"ProtocolError"}
